@@ -166,7 +166,7 @@ theorem runStack_quiet : ∀ (fuel : Nat) (ts : TS), QuietTS ts →
       have hcq : QuietC c := h.2 c (by rw [hc]; exact List.mem_cons_self)
       obtain ⟨h1, h2⟩ := quietC_run hcq _ hq
       obtain ⟨h3, h4⟩ := ih _ h2
-      exact ⟨by rw [h3, h1], h4⟩
+      exact ⟨by rw [h3, h1]; rfl, h4⟩
 
 theorem cleanupPhase_quiet {ts : TS} (h : QuietTS ts) : (cleanupPhase ts).err = none ∧ (cleanupPhase ts).ts.failed = none := by
   simp only [cleanupPhase]
